@@ -1,7 +1,13 @@
 //! Correspondence harness: `harness <property> --tier quick|thorough --seed N --out report.json [--replay file]`
 mod arch;
 mod c01;
+mod c02;
+mod c04;
+mod c05;
+mod repairs;
 mod c09;
+mod c11;
+mod layers;
 mod gens;
 mod util;
 
@@ -37,7 +43,11 @@ fn main() {
     let t0 = std::time::Instant::now();
     let rep = match prop.as_str() {
         "C01" => c01::run(&ctx),
+        "C02" => c02::run(&ctx),
+        "C04" => c04::run(&ctx),
+        "C05" => c05::run(&ctx),
         "C09" => c09::run(&ctx),
+        "C11" => c11::run(&ctx),
         _ => {
             eprintln!("unknown property {prop}");
             std::process::exit(2);
